@@ -319,8 +319,8 @@ Proof. exact (ramp_chain K). Qed.
        the grid they return has the data's shape and puts every output index at the world position of the sample it holds;
        resize / downsample / upsample hand F.interpolate a (size, align_corners) pair for which the returned grid is in
        lock-step (including the calls where an explicit align_corners argument differs from the grid's flag).
-       ok_pool_aniso records, faithfully, that a tuple kernel_size is read in tensor order by the data path and in grid
-       order by the grid path (data 2 x 2, grid 3 x 1). *)
+       A tuple kernel_size of avg_pool is in grid order for data and grid (ok_pool_aniso); upsample on a grid with fractional
+       size hands F.interpolate the grid's new size (ok_up_fractional, ok_up_fractional_nac). *)
 Theorem C04_traced_index_ops : traced_index_ops_ok K.
 Proof. exact (traced_index_ops_hold_K K Kf Kc). Qed.
 End Statements.
@@ -627,7 +627,7 @@ Print Assumptions C04_traced_index_ops.
 
 (* 11. the ceiling of the executable instance satisfies the hypotheses of theorem 8 *)
 (* shapes of downsample (all axes, no minimum size; ANY number of axes and levels): halving the rounded size (data path) and
-   the float size (grid path) give the same shape; upsample agrees when the float size is integral (otherwise: refuted below) *)
+   the float size (grid path) give the same shape; upsample agrees when the float size is integral (otherwise the data is resized to the grid's size: C04_upsample_fractional_size_lockstep) *)
 Theorem C04_shape_agrees_downsample_Qc :
   forall (D : nat) (L : nat) (a : option bool) (g : dgrid (K:=QcF)),
   Forall (fun f => (0 <= this f)%Q) (fs g) ->
@@ -648,7 +648,8 @@ Theorem C04_ceilQc :
 Proof. exact (conj ceilQc_int ceilQc_shift). Qed.
 
 (* 12. executable instance: the formerly defective same-shape resample (4 x 3 unit grid to spacing (6/5, 1)) is in lock-step on the
-       repaired code; the one remaining place where the code does NOT keep data and grid shapes together (faithful model, witness) *)
+       repaired code; the formerly defective
+       upsample after a fractional-size downsample likewise (the data follows the grid's size) *)
 Theorem C04_resample_same_shape_lockstep :
   let op := OResample (K:=QcF) [q 6 5; q 1 1] 1 in
   let g' := apply_op (K:=QcF) ceilQc floorQc leQc 2 op ex_grid in
@@ -658,12 +659,15 @@ Theorem C04_resample_same_shape_lockstep :
   existsb (fun J => in_hull ex_grid g' J && negb (qeqb (ival out J) (ival ex_img J))) (indices (ishape out)) = true.
 Proof. exact resample_same_shape_lockstep. Qed.
 
-Theorem C04_upsample_fractional_size_refuted :
-  let g := mkG (K:=QcF) [q 5 2; q 2 1] [q 2 1; q 2 1] [q 0 1; q 0 1] [[q 1 1; q 0 1]; [q 0 1; q 1 1]] true in
+Theorem C04_upsample_fractional_size_lockstep :
   let op := OUp (K:=QcF) 1 None None in
-  let g' := apply_op (K:=QcF) ceilQc floorQc leQc 2 op g in
-  nZ (K:=QcF) ceilQc g = [3; 2]%Z /\ nZ (K:=QcF) ceilQc g' = [5; 4]%Z /\ up_size 1 None [3; 2]%Z = [6; 4]%Z.
-Proof. exact upsample_fractional_size_refuted. Qed.
+  let g' := apply_op (K:=QcF) ceilQc floorQc leQc 2 op ex_frac_grid in
+  let out := apply_data 2 (IGrid op (q 0 1) []) ex_frac_grid g' ex_frac_img in
+  nZ (K:=QcF) ceilQc ex_frac_grid = [3; 2]%Z /\ up_size 1 None [3; 2]%Z = [6; 4]%Z /\
+  nZ (K:=QcF) ceilQc g' = [5; 4]%Z /\ ishape out = nZ (K:=QcF) ceilQc g' /\
+  forallb (fun J => negb (in_hull_of ex_frac_grid g' J) || qeqb (ival out J) (ex_ramp g' J)) (indices (ishape out)) = true /\
+  existsb (fun J => in_hull_of ex_frac_grid g' J) (indices (ishape out)) = true.
+Proof. exact upsample_fractional_size_lockstep. Qed.
 
 Print Assumptions C04_resample_same_shape_lockstep.
 
